@@ -75,7 +75,7 @@ def fillOpt (S : Schema) (d : Dfa) (q : Nat) (after : List TypeId) (toEnd : Bool
   liftRaise (fillBeforeNodes S d q after toEnd)
 
 /-- `node.is_textblock` / `type.is_textblock` -/
-def Schema.isTextblock (S : Schema) (t : TypeId) : Bool :=
+def Schema.isTextblockO (S : Schema) (t : TypeId) : Bool :=
   !(S.nodeType t).isInline && (S.nodeType t).inlineContent
 
 /-! ### fragment helpers -/
@@ -183,11 +183,11 @@ def closeMany (S : Schema) : Nat → List FItem → List Node → FM (List FItem
     closeMany S n fr' p'
 
 /-- `type.create(attrs, content)` (no marks) -/
-def Schema.createNode (S : Schema) (ty : TypeId) (attrs : Option Attrs) (content : List Node) : FM Node :=
+def Schema.createNodeO (S : Schema) (ty : TypeId) (attrs : Option Attrs) (content : List Node) : FM Node :=
   if (S.nodeType ty).isText then throw .raises
   else
     match computeAttrs (S.nodeType ty).attrs (attrs.getD []) with
-    | .ok a => pure (S.mkNode ty a [] content)
+    | .ok a => pure (S.mkNodeO ty a [] content)
     | .error _ => throw .raises
 
 /-- `open_frontier_node(type, attrs, content)` -/
@@ -197,7 +197,7 @@ def openFrontierNode (S : Schema) (fr : List FItem) (placed : List Node) (ty : T
   let top ← getItem fr depth
   let q ← getSt top
   let top' : FItem := ⟨top.ty, (S.dfa top.ty).matchType q ty⟩
-  let node ← S.createNode ty attrs content
+  let node ← S.createNodeO ty attrs content
   let placed' ← addToFragment placed depth [node]
   pure (fr.set depth top' ++ [⟨ty, some 0⟩], placed')
 
@@ -475,10 +475,10 @@ def moveBlocked (S : Schema) (doc : Node) (rt : RPos) (fr : List FItem) : FM Boo
 
 /-- `must_move_inline()`; `none` = `-1` -/
 def mustMoveInline (S : Schema) (doc : Node) (rt : RPos) (fr : List FItem) : FM (Option Nat) :=
-  if !S.isTextblock (S.tyOf rt.parent) then pure none
+  if !S.isTextblockO (S.tyOf rt.parent) then pure none
   else do
     let top ← getItem fr (fr.length - 1)
-    if !S.isTextblock top.ty then pure none
+    if !S.isTextblockO top.ty then pure none
     else do
       let fits ← contentAfterFits S rt rt.depth top.ty top.st false
       match fits with
